@@ -28,6 +28,7 @@ import (
 	"com.tuntun.rangers/node/src/common"
 	"com.tuntun.rangers/node/src/consensus/access"
 	"com.tuntun.rangers/node/src/consensus/groupsig"
+	bn_curve "com.tuntun.rangers/node/src/consensus/groupsig/bn256"
 	"com.tuntun.rangers/node/src/consensus/logical"
 	"com.tuntun.rangers/node/src/consensus/logical/group_create"
 	"com.tuntun.rangers/node/src/consensus/model"
@@ -91,6 +92,7 @@ const (
 	clsGarbage  = "garbagesig"
 	clsBeacon   = "badbeacon"
 	clsNon      = "nonmember"
+	clsPair     = "correlatedpair"
 )
 
 type sym struct {
@@ -299,6 +301,26 @@ func (e *env) add(s sym) {
 	e.syms = append(e.syms, s)
 }
 
+// G1 arithmetic on serialized points (harness side only: builds Byzantine messages whose two
+// shares are wrong in a correlated way; identity is the all-zero encoding bn256 marshals).
+func g1(b []byte) *bn_curve.G1 {
+	p := new(bn_curve.G1)
+	zero := true
+	for _, x := range b {
+		zero = zero && x == 0
+	}
+	if zero {
+		return p.ScalarBaseMult(big.NewInt(0)) // identity, without going through Unmarshal
+	}
+	if _, err := p.Unmarshal(b); err != nil {
+		panic(fmt.Sprintf("harness: not a G1 point: %v", err))
+	}
+	return p
+}
+func g1add(a, b []byte) []byte { return new(bn_curve.G1).Add(g1(a), g1(b)).Marshal() }
+func g1neg(a []byte) []byte    { return new(bn_curve.G1).Neg(g1(a)).Marshal() }
+func g1sub(a, b []byte) []byte { return g1add(a, g1neg(b)) }
+
 func (e *env) buildAlphabet() {
 	offCurve := make([]byte, 64)
 	offCurve[31], offCurve[63] = 1, 1 // (1,1): 1 != 1+3
@@ -343,6 +365,21 @@ func (e *env) buildAlphabet() {
 			H, H, sig(sk, H.Bytes()), id, infinity))
 		e.add(w(sym{Name: fmt.Sprintf("badbeacon:empty(%d)", i), Class: clsBeacon, Sender: i, Byz: i},
 			H, H, sig(sk, H.Bytes()), id, nil))
+		// both shares wrong in a correlated way: neither is valid for what it is filed under, but
+		// sums / linear combinations of the pair are (defeats any check that binds only a combination)
+		s1, s2 := sig(sk, H.Bytes()), sig(sk, R)
+		gen := new(bn_curve.G1).ScalarBaseMult(big.NewInt(1)).Marshal()
+		identity := make([]byte, 64)
+		pair := func(name string, core bool, a, b []byte) {
+			e.add(w(sym{Name: fmt.Sprintf("pair:%s(%d)", name, i), Class: clsPair, Sender: i, Byz: i, Core: core},
+				H, H, a, id, b))
+		}
+		pair("swapped", false, s2, s1)
+		pair("offset-generator", true, g1add(s1, gen), g1sub(s2, gen))
+		pair("offset-othershare", false, g1add(s1, sig(e.sks[nx], H.Bytes())), g1sub(s2, sig(e.sks[nx], H.Bytes())))
+		pair("sum-identity", false, g1add(s1, s2), identity)
+		pair("identity-sum", false, identity, g1add(s1, s2))
+		pair("negated", false, g1neg(s1), g1neg(s2))
 	}
 	// senders that are not members of the group
 	xid, xsk := detID("outsider"), detSk("outsider-key")
@@ -432,6 +469,8 @@ func admitSig(class string) string {
 		return "C15:admits-share-with-invalid-beacon"
 	case clsNon:
 		return "C15:admits-non-member"
+	case clsPair:
+		return "C15:admits-correlated-share-pair"
 	}
 	return "C15:share-set-corrupt"
 }
